@@ -45,30 +45,29 @@ Proof.
   destruct (vcaps caps); discriminate.
 Qed.
 
-Lemma rev_failed_fixed r : rev_wf r = true -> rev_failed true r <> None.
-Proof. destruct r; cbn; intros H; try discriminate; discriminate H. Qed.
+Lemma rev_failed_fixed r : rev_failed true r <> None.
+Proof. destruct r; discriminate. Qed.
 
-(* since fix d78db00 no result vector of the revocation validator reaches a dereference, whatever its
-   shape; a nil server result inside a result still does ([sc_wf]) *)
-Lemma native_no_panic l sc caps : sc_wf sc = true -> native l sc caps <> NPanic.
+(* since fix d78db00 no answer of the revocation validator reaches a dereference *)
+Lemma native_no_panic l sc caps : native l sc caps <> NPanic.
 Proof.
-  intros Hsc. unfold native, native_gen.
-  pose proof (rev_failed_fixed (s_rev sc) Hsc) as Hr.
+  unfold native, native_gen, native_gen2. fold (rev_failed true).
+  pose proof (rev_failed_fixed (s_rev sc)) as Hr.
   destruct (rev_failed true (s_rev sc)) as [f|]; [|congruence].
   repeat (brk1; try discriminate).
 Qed.
 
-Lemma process_signature_no_panic l pm sc : sc_wf sc = true ->
+Lemma process_signature_no_panic l pm sc :
   process_signature l pm sc <> PSPanic.
 Proof.
-  intros Hsc. unfold process_signature, process_signature_gen, presp_nil_res; fold discover.
+  unfold process_signature, process_signature_gen, presp_nil_res; fold discover.
   destruct (s_sig sc); try discriminate.
   pose proof (discover_no_panic pm sc) as Hd.
   destruct (discover pm sc) as [|e| |caps] eqn:Ed; try congruence; try discriminate.
-  - pose proof (native_no_panic l sc [] Hsc) as Hn.
+  - pose proof (native_no_panic l sc []) as Hn.
     destruct (native l sc []) eqn:En; try congruence; try discriminate.
     cbn. destruct (s_crit sc); discriminate.
-  - pose proof (native_no_panic l sc caps Hsc) as Hn.
+  - pose proof (native_no_panic l sc caps) as Hn.
     destruct (native l sc caps) eqn:En; try congruence; try discriminate.
     destruct (caps_to_verify l caps) eqn:Ec.
     + cbn. discriminate.
@@ -123,14 +122,14 @@ Lemma skip_out_good : good_outc skip_out.
 Proof. unfold good_outc; cbn; discriminate. Qed.
 
 Lemma verify_oci_good v sc :
-  sel_wf (v_oci v) = true -> sc_wf sc = true ->
+  sel_wf (v_oci v) = true ->
   good_v (oci_selected v) (verify_oci v sc).
 Proof.
-  intros Hsel Hsc. unfold verify_oci, oci_selected.
+  intros Hsel. unfold verify_oci, oci_selected.
   destruct (v_oci v) as [[| |l]|]; try (apply gv_err_early; reflexivity); [discriminate Hsel|].
   destruct (is_skip l).
   { apply gv_ok; [reflexivity | reflexivity | discriminate | apply skip_out_good]. }
-  pose proof (process_signature_no_panic l (v_pm v) sc Hsc) as Hn.
+  pose proof (process_signature_no_panic l (v_pm v) sc) as Hn.
   destruct (process_signature l (v_pm v) sc) as [|[e|] c rs] eqn:E; try congruence.
   - apply gv_err_out; [reflexivity | reflexivity | apply out_of_um].
   - rewrite (process_signature_success_content _ _ _ _ _ E). cbn [negb].
@@ -142,14 +141,14 @@ Proof.
 Qed.
 
 Lemma verify_blob_good v sc :
-  sel_wf (v_blob v) = true -> sc_wf sc = true ->
+  sel_wf (v_blob v) = true ->
   good_v (blob_selected v) (verify_blob v sc).
 Proof.
-  intros Hsel Hsc. unfold verify_blob, blob_selected.
+  intros Hsel. unfold verify_blob, blob_selected.
   destruct (v_blob v) as [[| |l]|]; try (apply gv_err_early; reflexivity); [discriminate Hsel|].
   destruct (is_skip l).
   { apply gv_ok; [reflexivity | reflexivity | discriminate | apply skip_out_good]. }
-  pose proof (process_signature_no_panic l (v_pm v) sc Hsc) as Hn.
+  pose proof (process_signature_no_panic l (v_pm v) sc) as Hn.
   destruct (process_signature l (v_pm v) sc) as [|[e|] c rs] eqn:E; try congruence.
   - apply gv_err_out; [reflexivity | reflexivity | apply out_of_um].
   - rewrite (process_signature_success_content _ _ _ _ _ E). cbn [negb].
@@ -181,12 +180,12 @@ Lemma call_of_good_v sel o :
 Proof. intros H; destruct H; try (apply gc_err). apply gc_ok; assumption. Qed.
 
 Lemma call_verify_good impl v sc :
-  sel_wf (v_oci v) = true -> sc_wf sc = true ->
+  sel_wf (v_oci v) = true ->
   impl <> VNil -> impl_wf impl = true ->
   good_call (call_verify impl v sc).
 Proof.
-  intros Hsel Hsc Hn Hi. destruct impl as [| |out err]; [congruence| |].
-  - cbn. apply (call_of_good_v _ _ (verify_oci_good v sc Hsel Hsc)).
+  intros Hsel Hn Hi. destruct impl as [| |out err]; [congruence| |].
+  - cbn. apply (call_of_good_v _ _ (verify_oci_good v sc Hsel)).
   - cbn. destruct err; [apply gc_err|].
     destruct out as [c|]; cbn in Hi; [|discriminate].
     apply gc_ok; [|apply custom_outc_good].
@@ -194,12 +193,12 @@ Proof.
 Qed.
 
 Lemma call_verify_blob_good impl v sc :
-  sel_wf (v_blob v) = true -> sc_wf sc = true ->
+  sel_wf (v_blob v) = true ->
   impl <> VNil -> impl_wf impl = true ->
   good_call (call_verify_blob impl v sc).
 Proof.
-  intros Hsel Hsc Hn Hi. destruct impl as [| |out err]; [congruence| |].
-  - cbn. apply (call_of_good_v _ _ (verify_blob_good v sc Hsel Hsc)).
+  intros Hsel Hn Hi. destruct impl as [| |out err]; [congruence| |].
+  - cbn. apply (call_of_good_v _ _ (verify_blob_good v sc Hsel)).
   - cbn. destruct err; [apply gc_err|].
     destruct out as [c|]; cbn in Hi; [|discriminate].
     apply gc_ok; [|apply custom_outc_good].
@@ -220,13 +219,12 @@ Inductive good_loop : lres -> Prop :=
 
 Lemma nloop_good impl v : sel_wf (v_oci v) = true ->
   impl <> VNil -> impl_wf impl = true -> 
-  forall k any items, forallb item_wf items = true -> good_loop (nloop impl v k any items).
+  forall k any items, good_loop (nloop impl v k any items).
 Proof.
-  intros Hsel Hn Hi. induction k as [|k IH]; intros any items Hit; cbn [nloop].
+  intros Hsel Hn Hi. induction k as [|k IH]; intros any items; cbn [nloop].
   - constructor.
   - destruct items as [|[|sc] rest]; try constructor.
-    cbn [forallb item_wf] in Hit. apply andb_prop in Hit as [Hsc Hrest].
-    pose proof (call_verify_good impl v sc Hsel Hsc Hn Hi) as Hc.
+    pose proof (call_verify_good impl v sc Hsel Hn Hi) as Hc.
     inversion Hc as [o Ho Hg Heq | o e Heq].
     + apply gl_succ; assumption.
     + destruct o; [apply IH; assumption | constructor].
@@ -244,10 +242,10 @@ Qed.
 
 Lemma nverify_good impl v n :
   sel_wf (v_oci v) = true ->
-  impl_wf impl = true -> forallb item_wf (n_items n) = true ->
+  impl_wf impl = true -> 
   good_n (nverify impl v n).
 Proof.
-  intros Hsel Hi Hit. unfold nverify.
+  intros Hsel Hi. unfold nverify.
   destruct impl as [| |out err] eqn:Eimpl; [apply gn_err| |].
   - (* the library's verifier *)
     destruct (n_repo_nil n); [apply gn_err|].
@@ -260,7 +258,7 @@ Proof.
       destruct (n_digest_mismatch n); [apply gn_err|].
       destruct (n_list_err n); [apply gn_err|].
       assert (Hn : VLib <> VNil) by discriminate.
-      pose proof (nloop_good VLib v Hsel Hn Hi (Z.to_nat (n_max n)) false (n_items n) Hit) as Hl.
+      pose proof (nloop_good VLib v Hsel Hn Hi (Z.to_nat (n_max n)) false (n_items n)) as Hl.
       inversion Hl as [e He|o Ho Hg He| |b He]; try apply gn_err.
       * apply gn_ok; assumption.
       * destruct b; apply gn_err.
@@ -271,7 +269,7 @@ Proof.
     destruct (n_digest_mismatch n); [apply gn_err|].
     destruct (n_list_err n); [apply gn_err|].
     assert (Hn : VCustom out err <> VNil) by discriminate.
-    pose proof (nloop_good (VCustom out err) v Hsel Hn Hi (Z.to_nat (n_max n)) false (n_items n) Hit) as Hl.
+    pose proof (nloop_good (VCustom out err) v Hsel Hn Hi (Z.to_nat (n_max n)) false (n_items n)) as Hl.
     inversion Hl as [e He|o Ho Hg He| |b He]; try apply gn_err.
     + apply gn_ok; assumption.
     + destruct b; apply gn_err.
@@ -296,11 +294,11 @@ Proof.
 Qed.
 
 Lemma nverify_blob_good impl v b sc :
-  sel_wf (v_blob v) = true -> sc_wf sc = true ->
+  sel_wf (v_blob v) = true ->
   impl_wf impl = true ->
   good_n (nverify_blob impl v b sc).
 Proof.
-  intros Hsel Hsc Hi. unfold nverify_blob.
+  intros Hsel Hi. unfold nverify_blob.
   destruct impl as [| |out err] eqn:Eimpl; [apply gn_err| |].
   - destruct (b_reader_nil b); [apply gn_err|].
     assert (Hn : VLib <> VNil) by discriminate.
@@ -317,11 +315,9 @@ Qed.
 (* ---------- the model as a whole ---------- *)
 Lemma wf_parts i : wf i = true ->
   impl_wf (i_impl i) = true /\
-  sel_wf (v_oci (i_v i)) = true /\ sel_wf (v_blob (i_v i)) = true /\
-  sc_wf (i_sc i) = true /\ forallb item_wf (n_items (i_n i)) = true.
+  sel_wf (v_oci (i_v i)) = true /\ sel_wf (v_blob (i_v i)) = true.
 Proof.
   unfold wf. intros H.
-  apply andb_prop in H as [H Hit]. apply andb_prop in H as [H Hsc].
   apply andb_prop in H as [H Hi]. apply andb_prop in H as [Ho Hb].
   repeat split; assumption.
 Qed.
@@ -351,7 +347,7 @@ Qed.
 
 Theorem no_panic i : wf i = true -> returns_normally (model i).
 Proof.
-  intros Hwf. destruct (wf_parts i Hwf) as (Hi & Hso & Hsb & Hsc & Hit).
+  intros Hwf. destruct (wf_parts i Hwf) as (Hi & Hso & Hsb).
   unfold model. destruct (uses_lib i && construct_fails i).
   { split; [discriminate|]. intros; discriminate. }
   destruct (i_entry i).
@@ -396,13 +392,13 @@ Theorem consistent_verifier i f l outs err :
      exists oc, outs = [Some oc] /\ oc_err oc = Some e /\ oc_same oc = true) /\
   (err = None -> exists oc, outs = [Some oc] /\ oc_same oc = true /\ oc_level oc <> None).
 Proof.
-  intros Hwf Hent Hm. destruct (wf_parts i Hwf) as (Hi & Hso & Hsb & Hsc & Hit).
+  intros Hwf Hent Hm. destruct (wf_parts i Hwf) as (Hi & Hso & Hsb).
   unfold model in Hm. destruct (uses_lib i && construct_fails i); [discriminate|].
   destruct Hent as [Hent|Hent]; rewrite Hent in Hm.
   - rewrite (policy_selected_verify i Hent).
-    exact (good_v_consistent _ _ _ _ _ _ (verify_oci_good _ _ Hso Hsc) Hm).
+    exact (good_v_consistent _ _ _ _ _ _ (verify_oci_good _ _ Hso) Hm).
   - rewrite (policy_selected_blob i Hent).
-    exact (good_v_consistent _ _ _ _ _ _ (verify_blob_good _ _ Hsb Hsc) Hm).
+    exact (good_v_consistent _ _ _ _ _ _ (verify_blob_good _ _ Hsb) Hm).
 Qed.
 
 Lemma good_n_consistent o f l outs err :
@@ -421,11 +417,11 @@ Theorem consistent_notation i f l outs err :
   (err = None <-> exists oc, outs = [Some oc] /\ oc_err oc = None) /\
   (err <> None -> outs = [] /\ f = false).
 Proof.
-  intros Hwf Hent Hm. destruct (wf_parts i Hwf) as (Hi & Hso & Hsb & Hsc & Hit).
+  intros Hwf Hent Hm. destruct (wf_parts i Hwf) as (Hi & Hso & Hsb).
   unfold model in Hm. destruct (uses_lib i && construct_fails i); [discriminate|].
   destruct Hent as [Hent|Hent]; rewrite Hent in Hm.
-  - exact (good_n_consistent _ _ _ _ _ (nverify_good _ _ _ Hso Hi Hit) Hm).
-  - exact (good_n_consistent _ _ _ _ _ (nverify_blob_good _ _ _ _ Hsb Hsc Hi) Hm).
+  - exact (good_n_consistent _ _ _ _ _ (nverify_good _ _ _ Hso Hi) Hm).
+  - exact (good_n_consistent _ _ _ _ _ (nverify_blob_good _ _ _ _ Hsb Hi) Hm).
 Qed.
 
 Theorem consistent_skip_verify v f l outs err :
@@ -468,7 +464,7 @@ Qed.
 
 Theorem model_spec_cons i : wf i = true -> spec_cons i (model i) = true.
 Proof.
-  intros Hwf. destruct (wf_parts i Hwf) as (Hi & Hso & Hsb & Hsc & Hit).
+  intros Hwf. destruct (wf_parts i Hwf) as (Hi & Hso & Hsb).
   unfold model. destruct (uses_lib i && construct_fails i); [reflexivity|].
   destruct (i_entry i) eqn:Hent.
   - apply spec_cons_good_v; [now left|]. rewrite (policy_selected_verify i Hent).
@@ -764,10 +760,7 @@ Definition sc_rev (r : revr) : scenario :=
 
 Theorem contracts_needed :
   model (i_base ENVerifyBlob (v_strict PMNil) (VCustom None false) sc_good) = OPanic /\
-  model (i_base EVerify (mk_v (Some SelBadLevel) None PMNil) VLib sc_good) = OPanic /\
-  model (i_base EVerify (v_strict PMNil) VLib (sc_rev RevNilServer)) = OPanic /\
-  model (mk_input ENVerify false (v_strict PMNil) VLib sc_good
-                  (mk_nreq false 1 RefOK false false false [Sig (sc_rev RevNilServer)]) b_good CCNone) = OPanic.
+  model (i_base EVerify (mk_v (Some SelBadLevel) None PMNil) VLib sc_good) = OPanic.
 Proof. repeat split; reflexivity. Qed.
 
 (* before fix 686cc56 a verification plugin answering (nil, nil) to get-plugin-metadata or to
@@ -795,6 +788,20 @@ Theorem prefix_d78db00_refuted :
              oc_results o = [(TInt, false); (TAuth, false); (TExp, false); (TTs, false); (TRev, true)]).
 Proof.
   split; [reflexivity|]. split; [reflexivity|]. split; eexists; split; reflexivity.
+Qed.
+
+(* before fix a146158 a revocation validator putting a nil entry among the server results of a result
+   reached a dereference (the logging loop of revocationFinalResult): the contract "no nil server result"
+   was needed. Now the entry is skipped and the verdict is the results' own *)
+Theorem prefix_a146158_refuted :
+  native_v1 LStrict (sc_rev RevNilServer) [] = NPanic /\
+  native LStrict (sc_rev RevNilServer) [] =
+    NGo [(TInt, false); (TAuth, false); (TExp, false); (TTs, false); (TRev, false)] /\
+  (exists o, model (i_base EVerify (v_strict PMNil) VLib (sc_rev RevNilServer)) = ORet false None [Some o] None /\
+             oc_err o = None /\
+             oc_results o = [(TInt, false); (TAuth, false); (TExp, false); (TTs, false); (TRev, false)]).
+Proof.
+  split; [reflexivity|]. split; [reflexivity|]. eexists; repeat split; reflexivity.
 Qed.
 
 (* a caller-supplied verifier answering (nil, nil) makes notation.Verify return a nil outcome *)
